@@ -105,7 +105,14 @@ def main(tier):
                       invariants=["Balanced"])
         chk.add_tlc("JtProgram[except_exception] (must be refuted)", tlc.run("JtProgram", cfgb, wd),
                     expect_violation="Balanced")
-        behs = emit_behaviours(chk, 3 if tier == "quick" else 4)
+        behs = emit_behaviours(chk, 3)
+        n4 = 0
+        if tier == "thorough":
+            import random
+            b4 = emit_behaviours(chk, 4)
+            n4 = len(b4)
+            behs += random.Random(chk.seed).sample(b4, min(len(b4), 300000))    # a seeded sample of the 4-action behaviours
+            del b4
         sims = emit_behaviours(chk, 12, simulate=1500 if tier == "quick" else 30000, maxgens=2)
         allb = behs + sims
         nproc = tlc.NCPU
@@ -132,8 +139,9 @@ def main(tier):
         chk.cov["evaluations"] = len(allb)
         chk.cov["distinct_nontrivial"] = sum(1 for b in allb if any(a["op"] in ("raise", "badcall", "gennext") for a in b["hist"]))
         chk.cov["exhaustive"] = True
-        chk.cov["rule"] = ("all behaviours of %d program actions (exhaustive) + %d simulated behaviours of 12 actions; non-trivial = "
-                           "programs containing a raise, a rejected call or a generator resumption" % (3 if tier == "quick" else 4, len(sims)))
+        chk.cov["rule"] = ("all behaviours of 3 program actions (exhaustive)%s + %d simulated behaviours of 12 actions; non-trivial = "
+                           "programs containing a raise, a rejected call or a generator resumption"
+                           % ((", a seeded sample of 300000 of the %d behaviours of 4 actions" % n4) if n4 else "", len(sims)))
         chk.sample({"program": allb[len(allb) // 2]["hist"], "expected_obs": allb[len(allb) // 2]["obs"]})
         chk.sample({"program": sims[0]["hist"], "expected_obs": sims[0]["obs"]})
         chk.part("replay", exhaustive_behaviours=len(behs), simulated=len(sims), traces_validated_by_tlc=nvalid)
